@@ -67,6 +67,8 @@ class Marker:
         return "Marker(%s, %s)" % (self.kind, ", ".join(map(str, self.data)))
 
     def __eq__(self, o):
+        if isinstance(o, Model):
+            return NotImplemented
         return isinstance(o, Marker) and self.kind == o.kind and all(
             (a is b) or (a == b) for a, b in zip(self.data, o.data)) and len(self.data) == len(o.data)
 
@@ -219,6 +221,22 @@ class ModelEval(Evaluator):
         if isinstance(a, PyObj) or isinstance(b, PyObj):
             raise Raised("TypeError", node, "unsupported operand types")
         return super().binop(node, op, a, b)
+
+    UDUNDER = {ast.USub: "__neg__", ast.UAdd: "__pos__", ast.Invert: "__invert__"}
+
+    def ev_UnaryOp(self, node):
+        if type(node.op) in self.UDUNDER:
+            v = self.ev(node.operand)
+            if isinstance(v, PyObj):
+                m = self.tree.method(v._cls, self.UDUNDER[type(node.op)])
+                if m is None:
+                    raise Raised("TypeError", node, "bad operand type for unary operator")
+                return self.invoke(m, [v], {}, node)
+            try:
+                return {ast.USub: lambda x: -x, ast.UAdd: lambda x: +x, ast.Invert: lambda x: ~x}[type(node.op)](v)
+            except TypeError as e:
+                raise Unsupported("cannot evaluate %s: %s" % (ast.unparse(node), e))
+        return super().ev_UnaryOp(node)
 
     def compare(self, node, op, a, b):
         if isinstance(op, (ast.Is, ast.IsNot)):
